@@ -222,3 +222,16 @@ def gen_store(items):
             raise Fail(f + ': the temporary doc store is not written with Compressor::None but ' + m.group(1))
         return D('TEMP_STORE_BLOCKSIZE', int(m.group(2).replace('_', '')), f + ' block size of the temporary (compressor none) doc store')
     items.append(temp_store_settings)
+
+    # ---- src/schema/document/default_document.rs: field ids of a CompactDoc are u16 ----
+    def compact_doc_field_limit():
+        f = 'src/schema/document/default_document.rs'
+        text = strip_comments(src(f))
+        m = re.search(r'struct\s+FieldValueAddr\s*\{\s*pub\s+field\s*:\s*(u8|u16|u32)\s*,', text)
+        if not m:
+            raise Fail(f + ': FieldValueAddr::field not found')
+        if len(re.findall(r'\.field_id\(\)\s*\.try_into\(\)\s*\.expect\(', text)) < 2:
+            raise Fail(f + ': add_field_value / add_leaf_field_value do not convert the field id with try_into().expect(..)')
+        return D('CD_FIELD_ID_LIMIT', {'u8': 256, 'u16': 65536, 'u32': 4294967296}[m.group(1)],
+                 f + ' FieldValueAddr::field is ' + m.group(1) + ': larger field ids panic in add_field_value')
+    items.append(compact_doc_field_limit)
